@@ -46,6 +46,18 @@ def cleanup_scratch():
         _SCRATCH = None
 
 
+def reset_logging_handlers():
+    """Drop every handler a finished case configured (their files live in the case's deleted scratch directory)."""
+    for lg in list(logging.Logger.manager.loggerDict.values()) + [logging.getLogger()]:
+        if isinstance(lg, logging.Logger):
+            for h in list(lg.handlers):
+                lg.removeHandler(h)
+                try:
+                    h.close()
+                except Exception:  # noqa: BLE001
+                    pass
+
+
 def group_name(i):
     return f"g{i}"
 
@@ -116,7 +128,7 @@ class Sim:
     """One world + one output directory. Used as a context manager."""
 
     def __init__(self, scn, schedule=(), lock_mode="classic", file_yields=False, faults=None, snapshots=False,
-                 observe_results=False, max_steps=8000, observe_rows=False, exotic=(), shared_node_hosts=0):
+                 observe_results=False, max_steps=8000, observe_rows=False, exotic=(), shared_node_hosts=0, event_logging=False):
         self.scn = scn
         self.base = tempfile.mkdtemp(prefix="case_", dir=scratch_root())
         self.root = os.path.join(self.base, "w")
@@ -153,6 +165,7 @@ class Sim:
         }
         self.w.observe_rows = observe_rows
         self.w.shared_node_hosts = shared_node_hosts
+        self.w.event_logging = event_logging
         self.w.exotic_plan = sorted((dict(x) for x in exotic), key=lambda x: x["at"])
         if isinstance(schedule, dict):
             self.w.schedule = list(schedule.get("picks", []))
@@ -166,12 +179,26 @@ class Sim:
 
     def __enter__(self):
         self.w.__enter__()
+        if self.w.event_logging:
+            reset_logging_handlers()
+            logging.disable(logging.NOTSET)
+            self._saved_evlog = W._evlog_get()
+            W._evlog_set(([], 0, True, False))
         return self
 
     def __exit__(self, *a):
         try:
             self.w.__exit__(*a)
         finally:
+            if self.w.event_logging:
+                logging.disable(logging.CRITICAL)
+                for h in list(logging.getLogger(W._EVENT_LOGGER).handlers):
+                    try:
+                        h.close()
+                    except Exception:  # noqa: BLE001
+                        pass
+                W._evlog_set(self._saved_evlog)
+                reset_logging_handlers()
             shutil.rmtree(self.base, ignore_errors=True)
         return False
 
